@@ -42,7 +42,7 @@ var Default = Probe
 
 // Probe reports what a target sees as one JSON line.
 func Probe(ctx context.Context) error {
-	return report(ctx, "probe", "")
+	return report(ctx, "probe")
 }
 
 // Probearg is Probe with one string argument: whatever word follows it on the command line.
@@ -50,10 +50,23 @@ func Probearg(ctx context.Context, s string) error {
 	return report(ctx, "probearg", s)
 }
 
+// Probetwo takes two string arguments.
+func Probetwo(ctx context.Context, a, b string) error {
+	return report(ctx, "probetwo", a, b)
+}
+
+func b64s(l []string) []string {
+	out := []string{}
+	for _, s := range l {
+		out = append(out, base64.StdEncoding.EncodeToString([]byte(s)))
+	}
+	return out
+}
+
 // prep is a dependency of every probe target: in verbose mode mg announces it on stderr.
 func prep() {}
 
-func report(ctx context.Context, target, arg string) error {
+func report(ctx context.Context, target string, args ...string) error {
 	fmt.Fprintln(os.Stderr, "PROBE-START")
 	mg.Deps(prep)
 	cwd, _ := os.Getwd()
@@ -74,7 +87,7 @@ func report(ctx context.Context, target, arg string) error {
 	log.Println("PROBE-LOG")
 	fmt.Fprintln(os.Stderr, "PROBE-ERR")
 	b, _ := json.Marshal(map[string]interface{}{
-		"target": target, "arg": base64.StdEncoding.EncodeToString([]byte(arg)),
+		"target": target, "args": b64s(args),
 		"origin": origin, "cwd": cwd, "env": env, "built_os": builtOS(), "built_arch": builtArch(),
 		"verbose": mg.Verbose(), "debug": mg.Debug(), "gocmd": base64.StdEncoding.EncodeToString([]byte(mg.GoCmd())),
 		"stdin_len": len(data), "stdin_sha": hex.EncodeToString(sum[:]), "has_deadline": has, "remaining_ns": rem,
@@ -150,6 +163,8 @@ EXTRA_POOL = [(b"FOO", b"bar"), (b"EMPTY", b""), (b"EQ", b"a=b=c"), (b"SP", b"x 
               (b"TAB", b"a\tb "), (b"lower_case", b"Mixed"), (b"a.b-c", b"dots"), (b"BYTES", b"\xff\xfe\x80"), (b"QUOTE", b"\"'\\$HOME`x`"),
               (b"LONG", b"0123456789abcdef" * 20), (b"MAGEFILE_FOO", b"zzz"), (b"MAGEFILE_IGNOREDEFAULT", b"1"),
               (b"MAGEFILE_TARGET_COLOR", b"Red"), (b"MAGEFILE_HASHFAST", b"1"), (b"MAGEFILEX", b"no underscore"), (b"EQ2", b"=lead"),
+              (b"MAGEFILE_ENABLE_COLOR", b"1"), (b"MAGEFILE_ENABLE_COLOR", b"true"), (b"MAGEFILE_ENABLE_COLOR", b"1"), (b"MAGEFILE_ENABLE_COLOR", b"0"),
+              (b"MAGEFILE_TARGET_COLOR", b"BrightGreen"), (b"TERM", b"xterm-256color"), (b"TERM", b"vt100"), (b"TERM", b"dumb"), (b"TERM", b""),
               # variables a shell maintains, with deliberately odd values: they are the caller's, not mage's to correct
               (b"PWD", b"/nonexistent/caller-pwd"), (b"PWD", b"/nonexistent/caller-pwd"), (b"PWD", b"/"), (b"PWD", b"relative/pwd"), (b"PWD", b""),
               (b"OLDPWD", b"/nonexistent/old pwd"), (b"SHLVL", b"41"), (b"_", b"/odd/underscore"), (b"home", b"/lower-case-home"),
@@ -489,12 +504,18 @@ def gen_cfg(rng, klass, layout, gowrap, quick):
             c.update(script="e6,z%d,o6,z%d" % (rng.choice([50, 200]), rng.choice([0, 100])), repeat=rng.choice([150, 300]))
         else:
             c.update(script=rng.choice(["e6,o6", "e6,o6", "e12,o12", "e6,e6,o6,o6", "e6,o6,o6,e6"]), repeat=rng.choice([1000, 2000, 3000]))
-        env = {k: v for k, v in env.items() if not k.startswith(b"MAGEFILE_")}
+        env = {k: v for k, v in env.items() if k not in (b"MAGEFILE_VERBOSE", b"MAGEFILE_DEBUG", b"MAGEFILE_TIMEOUT", b"MAGEFILE_LIST", b"MAGEFILE_HELP", b"MAGEFILE_GOCMD")}
+        if rng.random() < 0.7:        # colour switches and terminal types must not add a byte to what the target writes
+            env[b"MAGEFILE_ENABLE_COLOR"] = rng.choice([b"1", b"true"])
+            env[b"TERM"] = rng.choice([b"xterm-256color", b"xterm", b"dumb", b"vt100"])
     elif klass == "echo":
         c["word"] = "echo"
         c["out"] = rng.choice(["empty", "text", "binary", "nl"] + ([] if quick and rng.random() < 0.7 else ["big"]))
         c["err"] = rng.choice(["empty", "text", "binary", "nl"] + ([] if quick and rng.random() < 0.7 else ["big"]))
         c["combined"] = rng.random() < 0.5
+        if rng.random() < 0.6:
+            env[b"MAGEFILE_ENABLE_COLOR"] = rng.choice([b"1", b"true", b"T"])
+            env[b"TERM"] = rng.choice([b"xterm-256color", b"xterm", b"dumb", b"vt100"])
         c["script"] = ",".join("%s%d" % (rng.choice("oe"), rng.choice([0, 1, 2, 7, 100, 5000, 70000])) for _ in range(rng.choice([0, 1, 4, 12])))
         c["seed"] = rng.getrandbits(32)
         if rng.random() < 0.7:         # exact comparison needs a quiet front end and generated main
@@ -544,12 +565,25 @@ def render_b(B):
     return out
 
 
+AFTER_WORDS = ["-h", "--help", "-help", "--h", "-h=true", "-v", "-t", "-l", "--", "-debug", "-f", "-x"]
+AW_COUNT = [0]
 DD_COUNT = [0]
 
 
 def gen_tail(rng, c, env, klass):
     """what follows mage's own flags: [--] [flags of the compiled program] [target words]"""
     c.update(dd=False, B=[], twords=None)
+    if klass == "afterwords":
+        # a flag-looking word at every position behind the first target: the last, a middle one, behind a target
+        # without parameters; both front ends must treat it as a plain word
+        w = AFTER_WORDS[AW_COUNT[0] % len(AFTER_WORDS)]
+        pos = (AW_COUNT[0] // len(AFTER_WORDS) + AW_COUNT[0]) % 4
+        AW_COUNT[0] += 1
+        c["twords"] = [["probearg", w], ["probetwo", "needle", w], ["probetwo", w, "plain"], ["probe", w]][pos]
+        c["stray"] = pos == 3
+        for k in (b"MAGEFILE_LIST", b"MAGEFILE_HELP"):
+            env.pop(k, None)
+        return
     if klass != "dashdash":
         r = rng.random()
         if klass == "matrix" and r < 0.12:       # flag-like words behind the first target are words
@@ -624,7 +658,7 @@ def observe(r, stdin_sent):
             kv = base64.b64decode(e)
             k, _, v = kv.partition(b"=")
             env[k] = v
-        words = [js["target"].encode()] + ([base64.b64decode(js["arg"])] if js["target"] == "probearg" else [])
+        words = [js["target"].encode()] + [base64.b64decode(a) for a in js["args"]]
         # stderr up to the target's first own line (PROBE-START): the front end and the generated main;
         # from there to its next own line: mg announcing the dependency
         pre, dep, stage = [], [], 0
@@ -641,7 +675,9 @@ def observe(r, stdin_sent):
                 dep.append(line)
         if stage != 2:
             pre, dep = None, None      # the target's stderr markers are not on stderr at all
-        o.update(mode="run", pre=pre, dep=dep, words=words, env=env, origin=js["origin"], built_os=js.get("built_os"), built_arch=js.get("built_arch"), cwd=os.path.realpath(js["cwd"]), verbose=js["verbose"], debug=js["debug"],
+        mm = re.search(rb"^PROBE-ERR\r?\n", err, re.M)
+        post = err[mm.end():] if mm else None
+        o.update(mode="run", pre=pre, dep=dep, post=post, words=words, env=env, origin=js["origin"], built_os=js.get("built_os"), built_arch=js.get("built_arch"), cwd=os.path.realpath(js["cwd"]), verbose=js["verbose"], debug=js["debug"],
                  gocmd=base64.b64decode(js["gocmd"]), stdout_on=where,
                  stderr_on="stderr" if re.search(rb"^PROBE-ERR\r?$", err, re.M) else ("stdout" if re.search(rb"^PROBE-ERR\r?$", out, re.M) else None),
                  verbose_log=bool(re.search(rb"^PROBE-LOG\r?$", err + b"\n" + out, re.M)),
@@ -875,6 +911,13 @@ def oracle(cfg, proj, res, conv):
             if (o["mode"], o["rc"]) != want:
                 bad.append(("flag-error", tag + "the program did %r with status %d, the flags say %r with status %d" % (o["mode"], o["rc"], want[0], want[1])))
             continue
+        if cfg.get("stray"):
+            # a flag-looking word behind a target WITHOUT parameters is taken for the next target: the first one runs,
+            # then the unknown one ends the run with status 2 - on both front ends alike
+            if not (o["mode"] == "run" and o["rc"] == 2 and o.get("words") == [res["words"][0].encode()]):
+                bad.append(("words", tag + "expected %r to run and the stray word to end the run with status 2; the program did %r %r with status %d" % (
+                    res["words"][0], o["mode"], o.get("words"), o["rc"])))
+            continue
         if o["rc"] != 0 and not (o.get("timeout") == -1):
             bad.append(("run-failed", tag + "exit %d, stderr: %r" % (o["rc"], r["raw"]["err_b"][-400:])))
             continue
@@ -945,8 +988,11 @@ def oracle(cfg, proj, res, conv):
         if route == "mage":
             if o["cwd"] != res["expect_cwd"]:
                 bad.append(("cwd", tag + "target ran in %s, -w/-d say %s" % (o["cwd"], res["expect_cwd"])))
-            if r["raw"]["out_b"].count(b"\n") != 1 or not r["raw"]["out_b"].startswith(b"PROBE "):
-                bad.append(("stdout-bytes", tag + "stdout carries more than the target's line: %r" % r["raw"]["out_b"][:200]))
+        # what the target wrote arrives byte for byte: nothing prepended, nothing appended, on either stream
+        if not re.fullmatch(rb"PROBE \{[^\n]*\}\n", r["raw"]["out_b"]):
+            bad.append(("stdout-bytes", tag + "stdout is not exactly the target's line: starts %r, ends %r" % (r["raw"]["out_b"][:40], r["raw"]["out_b"][-40:])))
+        if o.get("post"):
+            bad.append(("stderr-bytes", tag + "stderr carries %r after the target's last line" % o["post"][:80]))
     # the go command given (flag, else variable) is the one the magefile is built with: every wrapper logs its calls
     mr = runs["mage"]
     eg = mr["given"]["gocmd"].encode() if mr["given"]["gocmd"] else (mr["env"].get(b"MAGEFILE_GOCMD") or b"go")
@@ -960,6 +1006,11 @@ def oracle(cfg, proj, res, conv):
         if "rc" in mo and (mo["rc"] != 0 or bo["rc"] != 0):
             continue
         diffs = []
+        if cfg.get("stray"):
+            if (mo["mode"], mo["rc"], mo.get("words")) != (bo["mode"], bo["rc"], bo.get("words")):
+                bad.append(("same-effect", "through mage %r: %r status %d words %r; through the compiled binary (%s %r): %r status %d words %r" % (
+                    runs["mage"]["argv"], mo["mode"], mo["rc"], mo.get("words"), route, runs[route]["argv"], bo["mode"], bo["rc"], bo.get("words"))))
+            continue
         am, ab = announce_observable(runs["mage"], conv), announce_observable(runs[route], conv)
         if am and ab and mo.get("pre") is not None and bo.get("pre") is not None:
             # byte for byte: the announcements carry no program name; behind a debug stream they are its tail
@@ -1211,7 +1262,17 @@ def run(ctx):
     rng = ctx.rng
     quick = ctx.quick
     DD_COUNT[0] = 0
+    AW_COUNT[0] = ctx.rng.randrange(48)
     m = projlib.Mage(ctx)
+    # every MAGEFILE_* name in the non-test sources that no model knows: setting it must change nothing here
+    try:
+        import depslib
+        for k in depslib.discover_knobs():
+            for v in depslib.KNOB_VALUES[:4]:
+                if (k.encode(), v.encode()) not in EXTRA_POOL:
+                    EXTRA_POOL.append((k.encode(), v.encode()))
+    except Exception as ex:
+        ctx.notes.append("discover_knobs unavailable: %r" % ex)
     gowrap = os.path.join(os.path.realpath(ctx.tmp), "gowrap")
     with open(gowrap, "w") as f:
         f.write(GOWRAP_SH)
@@ -1232,8 +1293,8 @@ def run(ctx):
     # configurations
     nproj = 12 if quick else 16
     layouts = (["plain", "mfdir", "plain", "both"] * 4)[:nproj]
-    counts = ({"slowbuild": 1, "matrix": 54, "dashdash": 20, "default": 10, "listhelp": 8, "explicit-off": 6, "echo": 12, "alt": 6, "hashfast": 5} if quick else
-              {"slowbuild": 4, "matrix": 1500, "dashdash": 400, "default": 200, "listhelp": 120, "explicit-off": 40, "echo": 200, "alt": 40, "hashfast": 100})
+    counts = ({"slowbuild": 1, "matrix": 54, "dashdash": 20, "default": 10, "listhelp": 8, "explicit-off": 6, "afterwords": 12, "echo": 12, "alt": 6, "hashfast": 5} if quick else
+              {"slowbuild": 4, "matrix": 1500, "dashdash": 400, "default": 200, "listhelp": 120, "explicit-off": 40, "afterwords": 192, "echo": 200, "alt": 40, "hashfast": 100})
     cfgs = []
     if ctx.replay and ctx.replay.get("case"):
         cfgs = [] if ctx.replay["case"].get("parser_words") is not None else [ctx.replay["case"]]
@@ -1327,8 +1388,9 @@ def run(ctx):
             if r["obs"]["mode"] == "run" and r["obs"].get("timeout") != -1:
                 bump("announcement_observable", "%s: %s" % (r["route"], announce_observable(r, conv) or "not (other writers on that stretch of stderr)"))
             bump("modes", r["obs"]["mode"])
-            items.append(coq_case(c, p, res, r, conv, bools if not items else []))
-            item_cfg.append((ci, r["route"]))
+            if not c.get("stray"):      # (what an unknown target word does is C04's model, not this one's)
+                items.append(coq_case(c, p, res, r, conv, bools if not items else []))
+                item_cfg.append((ci, r["route"]))
         h = case_hash([c[k] for k in ("layout", "v", "debug", "l", "h", "t", "gocmd", "env", "dv", "wv", "stdin", "off")])
         if h not in seen:
             seen.add(h)
